@@ -17,6 +17,7 @@ type MBlob struct {
 type MClaim struct {
 	PN, Kind, Attr, Val string
 	Date                int64
+	Other               bool // not signed by the owner of the search handler
 }
 type MFile struct {
 	Ref, Name     string
@@ -52,6 +53,18 @@ func (w *MWorld) addBlob(ref, camli string, size int) {
 	w.Blobs = append(w.Blobs, MBlob{ref, camli, size})
 }
 
+// insertClaim keeps Claims in date order (claims of one date in arrival order): the order in which
+// a permanode's claims take effect.
+func (w *MWorld) insertClaim(c MClaim) {
+	i := len(w.Claims)
+	for i > 0 && w.Claims[i-1].Date > c.Date {
+		i--
+	}
+	w.Claims = append(w.Claims, MClaim{})
+	copy(w.Claims[i+1:], w.Claims[i:])
+	w.Claims[i] = c
+}
+
 func (w *MWorld) blob(ref string) (MBlob, bool) {
 	i, ok := w.idx[ref]
 	if !ok {
@@ -63,11 +76,21 @@ func (w *MWorld) blob(ref string) (MBlob, bool) {
 // isRef: the value is the text of a blobref (the worlds only contain sha224 refs and plain words).
 func isRef(s string) bool { return isRefWord(s) }
 
-// Vals folds the attribute claims of pn (all dated in the past) into the current values of attr.
-func (w *MWorld) Vals(pn, attr string) []string {
+// Vals folds the attribute claims of pn that the owner signed (all dated in the past, in date
+// order) into the current values of attr: what a search evaluates.
+func (w *MWorld) Vals(pn, attr string) []string { return w.vals(pn, attr, false, 0) }
+
+// ValsAt: the values at time at (0 = now): only the claims dated up to at count.
+func (w *MWorld) ValsAt(pn, attr string, at int64) []string { return w.vals(pn, attr, false, at) }
+
+// ValsAll: the same over the claims of every signer – what makes a relation edge
+// (Corpus.PermanodeHasAttrValue is asked without a signer, query.go:907).
+func (w *MWorld) ValsAll(pn, attr string, at int64) []string { return w.vals(pn, attr, true, at) }
+
+func (w *MWorld) vals(pn, attr string, all bool, at int64) []string {
 	var v []string
 	for _, c := range w.Claims {
-		if c.PN != pn || c.Attr != attr {
+		if c.PN != pn || c.Attr != attr || (c.Other && !all) || (at != 0 && c.Date > at) {
 			continue
 		}
 		switch c.Kind {
@@ -92,8 +115,8 @@ func (w *MWorld) Vals(pn, attr string) []string {
 	return v
 }
 
-func (w *MWorld) first(pn, attr string) string {
-	if v := w.Vals(pn, attr); len(v) > 0 {
+func (w *MWorld) first(pn, attr string, at int64) string {
+	if v := w.ValsAt(pn, attr, at); len(v) > 0 {
 		return v[0]
 	}
 	return ""
@@ -326,8 +349,8 @@ func edgeAttr(r *RelC, attr string) bool {
 	return attr == "camliMember" || strings.HasPrefix(attr, "camliPath:")
 }
 
-// related lists the nodes the relation reaches from pn, as of now.
-func (w *MWorld) related(r *RelC, pn string) []string {
+// related lists the nodes the relation reaches from pn at time at (0 = now).
+func (w *MWorld) related(r *RelC, pn string, at int64) []string {
 	var out []string
 	seen := map[string]bool{}
 	add := func(x string) {
@@ -340,7 +363,7 @@ func (w *MWorld) related(r *RelC, pn string) []string {
 		var as []string
 		sa := map[string]bool{}
 		for _, c := range w.Claims {
-			if c.PN == p && !sa[c.Attr] {
+			if c.PN == p && !sa[c.Attr] && (at == 0 || c.Date <= at) {
 				sa[c.Attr] = true
 				as = append(as, c.Attr)
 			}
@@ -353,7 +376,7 @@ func (w *MWorld) related(r *RelC, pn string) []string {
 			if !edgeAttr(r, a) {
 				continue
 			}
-			for _, v := range w.Vals(pn, a) {
+			for _, v := range w.ValsAll(pn, a, at) {
 				if isRef(v) {
 					add(v)
 				}
@@ -365,7 +388,7 @@ func (w *MWorld) related(r *RelC, pn string) []string {
 				if !edgeAttr(r, a) {
 					continue
 				}
-				for _, v := range w.Vals(p, a) {
+				for _, v := range w.ValsAll(p, a, at) {
 					if v == pn {
 						add(p)
 					}
@@ -381,7 +404,7 @@ func (w *MWorld) matchesPN(p *PermC, b MBlob) bool {
 		return false
 	}
 	if p.Attr != "" {
-		vals := w.Vals(b.Ref, p.Attr)
+		vals := w.ValsAt(b.Ref, p.Attr, p.At)
 		if p.NumValue != nil && !intOK(p.NumValue, int64(len(vals))) {
 			return false
 		}
@@ -398,7 +421,7 @@ func (w *MWorld) matchesPN(p *PermC, b MBlob) bool {
 		}
 	}
 	if p.SkipHidden {
-		if w.first(b.Ref, "camliDefVis") == "hide" || w.first(b.Ref, "camliNodeType") == "foursquare.com:venue" {
+		if w.first(b.Ref, "camliDefVis", p.At) == "hide" || w.first(b.Ref, "camliNodeType", p.At) == "foursquare.com:venue" {
 			return false
 		}
 	}
@@ -409,7 +432,7 @@ func (w *MWorld) matchesPN(p *PermC, b MBlob) bool {
 		return false
 	}
 	if r := p.Rel; r != nil {
-		rel := w.related(r, b.Ref)
+		rel := w.related(r, b.Ref, p.At)
 		good, bad := 0, 0
 		sub := r.Any
 		if sub == nil {
